@@ -335,7 +335,7 @@ def _as_int(x):
 def _run_norm(fold, q, w, cache):
     key = (fold.name, tuple(x.get_id() for x in q), w.get_id())
     if key in cache:
-        return cache[key]
+        return cache[key][1]
     cw = _concrete_word(w) if all(z3.is_int_value(x) for x in q) else None
     if cw is not None and len(cw) > 0:
         st = tuple(x.as_long() for x in q)
@@ -376,7 +376,8 @@ def _run_norm(fold, q, w, cache):
         r = (tuple(z3.If(c, x, y) for x, y in zip(ra[0], rb[0])), z3.If(c, ra[1], rb[1]))
     else:
         r = fold.raw(q, w)
-    cache[key] = r
+    # keep the key terms alive: z3 re-uses AST ids of collected terms
+    cache[key] = ((q, w), r)
     return r
 
 
@@ -408,9 +409,9 @@ def normalize(e, cache=None):
     def go(t):
         tid = t.get_id()
         if tid in memo:
-            return memo[tid]
+            return memo[tid][1]
         if z3.is_quantifier(t) or not z3.is_app(t) or t.num_args() == 0:
-            memo[tid] = t
+            memo[tid] = (t, t)
             return t
         kids = [go(k) for k in t.children()]
         d = t.decl()
@@ -429,17 +430,17 @@ def normalize(e, cache=None):
                 r = _rebuild(t, kids)
             else:
                 r = t
-        memo[tid] = r
+        memo[tid] = (t, r)      # the key term is kept alive: z3 re-uses AST ids of collected terms
         return r
 
     return go(e)
 
 
 def _flatten_simplify(w):
-    if is_concat(w) or is_unit(w) or is_empty(w):
+    if is_concat(w) or is_unit(w) or is_empty(w) or _is_const(w):
         return w
-    # cheap local simplification so that e.g. (seq.++ a (seq.++ b c)) written by substitution is seen
-    return w
+    # local simplification so that slices / conditionals over literals are seen as the literals they are
+    return z3.simplify(w)
 
 
 def _rebuild(t, kids):
@@ -539,7 +540,7 @@ def _conjuncts(e):
     return [e]
 
 
-def prepare(assumptions, goal, rounds=12):
+def prepare(assumptions, goal, rounds=60):
     """Equivalent obligation in which constants defined by an assumption `x == t` are eliminated and the
     defining equations of folds are applied.  Sound: substitution of equals + definitional unfolding."""
     ass = []
@@ -581,6 +582,11 @@ def prepare(assumptions, goal, rounds=12):
         ass = [z3.substitute(a, (x, t)) for a in ass if a is not a0]
         bridges = [z3.substitute(b, (x, t)) for b in bridges]
         goal = z3.substitute(goal, (x, t))
+    else:
+        # rounds exhausted: make sure the last substitution is followed by a rewriting pass
+        cache = {}
+        ass = [z3.simplify(normalize(a, cache)) for a in ass]
+        goal = z3.simplify(normalize(goal, cache))
     ass = ass + bridges
     # definitional instances of rep(c, n) for the terms that occur (one level; sound: instances of the definition)
     seen = {}
